@@ -66,7 +66,7 @@ PROPS["C14"] = {
         Leg("neighbour-writer-race", "c14", "^TestNeighbourWriter$", engine="sched", race=True, checks=(600, 12000), shards=(2, 8), tests=["neighbour-writer"], replay_attempts=5),
         Leg("shared-readers", "c14", "^TestSharedReaders$", engine="sched", checks=(1500, 40000), shards=(2, 16), tests=["shared-readers"], replay_attempts=5),
         Leg("shared-readers-race", "c14", "^TestSharedReaders$", engine="sched", race=True, checks=(400, 8000), shards=(2, 8), tests=["shared-readers"], replay_attempts=5),
-        Leg("random-no-tzdata", "c14", "^TestRandom$", wrap="no-tzdata", env={"ZONEINFO": ""}, checks=(20000, 300000), shards=(1, 8), tests=["random"]),
+        Leg("random-no-tzdata", "c14", "^TestRandom$", wrap="no-tzdata", tags="notzdata", env={"ZONEINFO": ""}, checks=(20000, 300000), shards=(1, 8), tests=["random"]),
         Leg("huge-386", "c14", "^TestHuge$", goarch="386", checks=(2000, 30000), shards=(1, 2), tests=["huge"]),
         Leg("grid-386", "c14", "^TestGrid$", engine="enumerate", rapid=False, goarch="386", shards=(1, 1), tests=["grid"]),
         Leg("random-386", "c14", "^TestRandom$", goarch="386", checks=(50000, 1000000), shards=(1, 8), tests=["random"]),
@@ -98,7 +98,7 @@ PROPS["C07"] = {
         Leg("parallel", "c07", "^TestParallel$", engine="sched", checks=(800, 15000), shards=(2, 16), tests=["parallel"], replay_attempts=5),
         Leg("parallel-race", "c07", "^TestParallel$", engine="sched", race=True, checks=(150, 3000), shards=(2, 8), tests=["parallel"], replay_attempts=5),
         Leg("first-use-race", "c07", "^TestParallel$", engine="sched", race=True, checks=(2, 2), shards=(12, 64), env={"VERIF_FIRST_USE": "1"}, tests=["parallel"], replay_attempts=5),
-        Leg("frame-no-tzdata", "c07", "^TestFrame$", wrap="no-tzdata", env={"ZONEINFO": ""}, checks=(4000, 40000), shards=(1, 8), tests=["frame"]),
+        Leg("frame-no-tzdata", "c07", "^TestFrame$", wrap="no-tzdata", tags="notzdata", env={"ZONEINFO": ""}, checks=(4000, 40000), shards=(1, 8), tests=["frame"]),
         Leg("fuzz-typed-frame", "c07", "", engine="native-fuzz", fuzz="FuzzTypedFrame", fuzztime=150, tiers=("thorough",)),
         Leg("fuzz-raw-stream", "c07", "", engine="native-fuzz", fuzz="FuzzRawStream", fuzztime=120, tiers=("thorough",)),
     ],
@@ -211,7 +211,7 @@ PROPS["C20"] = {
     "legs": [
         Leg("types", "c20", "^TestTypes$", engine="enumerate", rapid=False, shards=(1, 1), tests=["types"]),
         Leg("types-386", "c20", "^TestTypes$", engine="enumerate", rapid=False, goarch="386", shards=(1, 1), tests=["types"]),
-        Leg("types-no-tzdata", "c20", "^TestTypes$", engine="enumerate", rapid=False, wrap="no-tzdata", env={"ZONEINFO": ""}, shards=(1, 1), tests=["types"]),
+        Leg("types-no-tzdata", "c20", "^TestTypes$", engine="enumerate", rapid=False, wrap="no-tzdata", tags="notzdata", env={"ZONEINFO": ""}, shards=(1, 1), tests=["types"]),
         Leg("parallel", "c20", "^TestParallel$", engine="sched", checks=(300, 5000), shards=(2, 16), tests=["parallel"], replay_attempts=5),
         Leg("parallel-race", "c20", "^TestParallel$", engine="sched", race=True, checks=(100, 1500), shards=(2, 8), tests=["parallel"], replay_attempts=5),
         Leg("first-use-race", "c20", "^TestParallel$", engine="sched", race=True, checks=(2, 2), shards=(12, 64), env={"VERIF_FIRST_USE": "1"}, tests=["parallel"], replay_attempts=5),
@@ -425,7 +425,7 @@ PROPS["C15"] = {
     "legs": [
         Leg("history", "c15", "^TestHistory$", checks=(1000, 12000), shards=(2, 16), tests=["history"]),
         Leg("history-tz", "c15", "^TestHistory$", checks=(100, 2000), shards=(6, 12), tests=["history"], shard_env=[{"TZ": "UTC"}, {"TZ": "Europe/London"}, {"TZ": "America/New_York"}, {"TZ": "Asia/Kolkata"}, {"TZ": "Australia/Lord_Howe"}, {"TZ": "Europe/Moscow"}]),
-        Leg("history-no-tzdata", "c15", "^TestHistory$", wrap="no-tzdata", env={"ZONEINFO": ""}, checks=(300, 4000), shards=(1, 8), tests=["history"]),
+        Leg("history-no-tzdata", "c15", "^TestHistory$", wrap="no-tzdata", tags="notzdata", env={"ZONEINFO": ""}, checks=(300, 4000), shards=(1, 8), tests=["history"]),
         Leg("history-386", "c15", "^TestHistory$", goarch="386", checks=(300, 4000), shards=(1, 8), tests=["history"]),
         Leg("history-race", "c15", "^TestHistory$", engine="sched", race=True, checks=(200, 3000), shards=(2, 16), tests=["history"]),
         Leg("first-use-race", "c15", "^TestHistory$", engine="sched", race=True, checks=(2, 2), shards=(12, 64), env={"VERIF_FIRST_USE": "1"}, tests=["history"], replay_attempts=5),
@@ -572,7 +572,7 @@ def _env_legs():
             legs.append(Leg(name + "-386", pkg, test, engine=engine, goarch="386", checks=c386, shards=(2, 8), tests=[name], replay_attempts=3))
         if notz and name + "-no-tzdata" not in have:
             q = c386 or (1500, 30000)
-            legs.append(Leg(name + "-no-tzdata", pkg, test, engine=engine, wrap="no-tzdata", env={"ZONEINFO": ""}, checks=q, shards=(1, 8), tests=[name], replay_attempts=3))
+            legs.append(Leg(name + "-no-tzdata", pkg, test, engine=engine, wrap="no-tzdata", tags="notzdata", env={"ZONEINFO": ""}, checks=q, shards=(1, 8), tests=[name], replay_attempts=3))
 
 
 _env_legs()
